@@ -100,6 +100,24 @@ Definition op_table : list (string * rd string) :=
     ("s_valid", md <- rMode ;; p <- rTp ;; ret (sh_bool (valid_tp md p)));
     ("s_normal", md <- rMode ;; p <- rTp ;; ret (sh_bool (normal_tp md p)));
     ("s_len", x <- rDur ;; ret (show_Q (dur_len x)));
+    (* durations *)
+    ("dadd", a <- rDur ;; b <- rDur ;; ret (sh_dur (dur_add a b)));
+    ("dsub", a <- rDur ;; b <- rDur ;; ret (sh_dur (dur_sub a b)));
+    ("dmul", a <- rDur ;; n <- rZ ;; ret (sh_dur (dur_mul a n)));
+    ("dfloordiv", a <- rDur ;; n <- rZ ;; ret (if (n =? 0)%Z then "EXC ZeroDivisionError" else sh_dur (dur_floordiv a n)));
+    ("dabs", a <- rDur ;; ret (sh_dur (dur_abs a)));
+    ("deq", a <- rDur ;; b <- rDur ;; ret (sh_bool (dur_eqb a b)));
+    ("dcmp", md <- rMode ;; a <- rDur ;; b <- rDur ;;
+       ret (unwords [sh_bool (dur_ltb md a b); sh_bool (dur_leb md a b); sh_bool (dur_gtb md a b); sh_bool (dur_geb md a b)]));
+    ("dhash", a <- rDur ;; b <- rDur ;;
+       ret (let '(y1, m1, s1) := dur_hash_key a in let '(y2, m2, s2) := dur_hash_key b in
+            sh_bool ((y1 =? y2)%Z && (m1 =? m2)%Z && qeqb s1 s2)));
+    ("dbool", a <- rDur ;; ret (sh_bool (dur_bool a)));
+    ("dexact", a <- rDur ;; ret (sh_bool (is_exact a)));
+    ("dsecs", md <- rMode ;; a <- rDur ;; ret (show_Q (get_seconds md a)));
+    ("ddays", md <- rMode ;; a <- rDur ;; ret (let '(d, sec) := days_and_seconds md a in unwords [show_Z d; show_Q sec]));
+    ("dtodays", a <- rDur ;; ret (sh_dur (to_days a)));
+    ("dtoweeks", a <- rDur ;; ret (sh_dur (match a with DW _ => a | DU _ _ d _ _ _ => dur_make 0 0 (d / 7) 0 0 0 0 end)));
     (* time point arithmetic *)
     ("add", md <- rMode ;; p <- rTp ;; x <- rDur ;; ret (sh_opt sh_tp (tp_add md p x)));
     ("subd", md <- rMode ;; p <- rTp ;; x <- rDur ;; ret (sh_opt sh_tp (tp_sub_dur md p x)));
